@@ -13,8 +13,14 @@
 //   - the xpub wallet built from the bip44 account's external-chain xpub is compared against the
 //     bip44 one-shot external chain (watch-only == seed wallet);
 //   - a collection wallet holds exactly the supplied keys, in order.
+//
 // Service leg: Service.NewAddresses / ScanAddresses sequences interleaved with restarting the
 // service on the same directory, same oracle.
+// Refused and failing operations are part of every sequence (wallet objects and service): a scan
+// whose activity oracle fails at the first or a later chain, wrong/missing/superfluous passwords,
+// lock/unlock in the wrong state, generation on a missing account, more than 2^32 xpub children,
+// an invalid collection key, an unknown wallet id. They return an error and no addresses, the
+// model does not move, and the same wallet object carries on with generate/scan/save/reload.
 package main
 
 import (
@@ -77,6 +83,237 @@ type seq struct {
 	svc    *wallet.Service
 	svcCfg wallet.Config
 	encPw  []byte
+	// a refused / failed operation happened and no generation (resp. reload) has followed yet
+	pendGen, pendReload bool
+}
+
+// ---- refused and failing operations ---------------------------------------------------------
+//
+// The model says address i of a chain depends only on the seed material and on i. An operation
+// that is refused (wrong password, missing account, impossible count, invalid key) or that fails
+// half way (the activity oracle of a scan returns an error, possibly after it answered for other
+// chains) hands the caller an error and no addresses, so the number derived so far is what it was
+// before, and everything generated afterwards on the SAME wallet object must continue the one-shot
+// list exactly where it stood. The operations below are mixed into every sequence; the ordinary
+// per-step comparison plus the following generate / scan / reload steps do the checking.
+
+var errFinder = fmt.Errorf("c17: activity lookup failed")
+
+// failTF is an activity oracle that answers the first failAt queries from patterns and fails from
+// then on (optionally handing back a filled slice next to the error). Every query is logged.
+type failTF struct {
+	failAt   int
+	withData bool
+	patterns [][]bool
+	calls    [][]cipher.Addresser
+}
+
+func (t *failTF) AddressesActivity(addrs []cipher.Addresser) ([]bool, error) {
+	n := len(t.calls)
+	t.calls = append(t.calls, append([]cipher.Addresser(nil), addrs...))
+	out := make([]bool, len(addrs))
+	if n >= t.failAt {
+		if t.withData {
+			for i := range out {
+				out[i] = true
+			}
+			return out, errFinder
+		}
+		return nil, errFinder
+	}
+	if n < len(t.patterns) {
+		copy(out, t.patterns[n])
+	}
+	return out, nil
+}
+
+// failPlan draws a failing scan: window k >= 1, the query that fails, hit patterns for the
+// queries answered before it
+func failPlan(rng *rand.Rand, nchains int) (int, *failTF) {
+	k := []int{1, 2, 3, 7, 12}[rng.Intn(5)]
+	tf := &failTF{failAt: rng.Intn(nchains), withData: rng.Intn(3) == 0}
+	for i := 0; i < tf.failAt; i++ {
+		p, _ := wfix.Pattern(rng, k)
+		if rng.Intn(2) == 0 {
+			p[k-1] = true // hit at the far end of the window: the clone would keep all k
+		}
+		tf.patterns = append(tf.patterns, p)
+	}
+	return k, tf
+}
+
+// abandon ends a sequence without a verdict (the model cannot follow); the per-kind sequence
+// floors then make the run inconclusive
+func (s *seq) abandon(step, why string) {
+	s.log("ABANDONED at %s: %s", step, why)
+	s.bad = true
+	s.r.Count("sequences.abandoned", 1)
+}
+
+// refusedOutcome handles the result of an operation that cannot deliver addresses.
+// mustFail: success would mean addresses were derived that no reference can name (violation);
+// otherwise success is outside this property (password handling) and the sequence is abandoned.
+func (s *seq) refusedOutcome(step, class string, ngot int, err error, mustFail bool) bool {
+	if err == nil {
+		if mustFail {
+			s.violation("impossible-operation-succeeded", step, fmt.Sprintf("%s: no error, %d addresses returned", class, ngot))
+		} else {
+			s.abandon(step, class+" was accepted")
+		}
+		return false
+	}
+	if ngot != 0 {
+		s.violation("refused-operation-returned-addresses", step, fmt.Sprintf("%s: error %v together with %d addresses", class, err, ngot))
+		return false
+	}
+	s.r.Count("op.refused", 1)
+	s.r.Count("op.refused."+class, 1)
+	s.pendGen, s.pendReload = true, true
+	return true
+}
+
+// failedScanWindows: whatever a failing scan asked before (and when) it failed must still be the
+// next k one-shot addresses of the chains in order
+func (s *seq) failedScanWindows(step string, k int, tf *failTF) bool {
+	cks := s.chains()
+	if len(tf.calls) > len(cks) {
+		s.violation("scan-oracle-calls", step, fmt.Sprintf("%d activity queries for %d chains", len(tf.calls), len(cks)))
+		return false
+	}
+	for i, c := range tf.calls {
+		ck := cks[i]
+		old := s.want[ck]
+		if !s.need(ck, old+k) {
+			return false
+		}
+		if !sameStrings(addrStrings(c), s.ref[ck][old:old+k]) {
+			s.violation("scan-window", step, fmt.Sprintf("chain %v: asked about %v, one-shot window %v", ck, addrStrings(c), s.ref[ck][old:old+k]))
+			return false
+		}
+	}
+	return true
+}
+
+// opFailedScan: ScanAddresses on the wallet object itself with an oracle that fails
+func (s *seq) opFailedScan(rng *rand.Rand) {
+	k, tf := failPlan(rng, len(s.chains()))
+	step := fmt.Sprintf("scan %d, activity query #%d fails (data=%v, locked=%v)", k, tf.failAt, tf.withData, s.w.IsEncrypted())
+	s.log(step)
+	got, err := s.w.ScanAddresses(uint64(k), tf)
+	class := "scan_finder_error"
+	if s.kind == wallet.WalletTypeCollection {
+		class = "scan_unsupported"
+	} else if s.w.IsEncrypted() && s.kind == wallet.WalletTypeDeterministic {
+		class = "scan_locked"
+	}
+	if class != "scan_finder_error" && err == nil && len(got) == 0 {
+		// a locked deterministic wallet has no seed to derive from and a collection wallet
+		// derives nothing; saying so with an empty answer instead of an error is accepted
+		err = fmt.Errorf("empty answer")
+	}
+	if !s.refusedOutcome(step, class, len(got), err, true) {
+		return
+	}
+	if class == "scan_finder_error" {
+		if len(tf.calls) == 0 {
+			s.violation("scan-oracle-calls", step, "scan failed with "+err.Error()+" before asking the activity oracle")
+			return
+		}
+		if !s.failedScanWindows(step, k, tf) {
+			return
+		}
+		if tf.failAt > 0 {
+			s.r.Count("op.refused.scan_finder_error.after_answers", 1)
+		}
+		if s.want[chainKey{0, 0}] > 0 {
+			s.r.Count("op.refused.scan_finder_error.nonempty_wallet", 1)
+		}
+	}
+	s.check(step)
+}
+
+// opRefusedLock: lock/unlock requests that must be turned down
+func (s *seq) opRefusedLock(rng *rand.Rand) {
+	var step, class string
+	var err error
+	if s.w.IsEncrypted() {
+		if rng.Intn(3) == 0 {
+			step, class = "lock again while locked", "lock_locked"
+			s.log(step)
+			err = s.w.Lock([]byte("other " + wfix.RandToken(rng, 6)))
+		} else {
+			wrong := append([]byte(nil), s.pw...)
+			switch rng.Intn(3) {
+			case 0:
+				wrong[rng.Intn(len(wrong))] ^= 1 << uint(rng.Intn(7))
+			case 1:
+				wrong = append(wrong, 'x')
+			default:
+				wrong = []byte("pw " + wfix.RandToken(rng, 9))
+			}
+			step, class = "unlock with wrong password", "unlock_wrong_password"
+			s.log(step)
+			var w2 wallet.Wallet
+			w2, err = s.w.Unlock(wrong)
+			if err == nil && w2 != nil {
+				s.w = w2
+			}
+		}
+	} else {
+		if rng.Intn(2) == 0 {
+			step, class = "lock with empty password", "lock_empty_password"
+			s.log(step)
+			err = s.w.Lock(nil)
+		} else {
+			step, class = "unlock while not locked", "unlock_unlocked"
+			s.log(step)
+			_, err = s.w.Unlock([]byte("pw " + wfix.RandToken(rng, 8)))
+		}
+	}
+	if s.refusedOutcome(step, class, 0, err, false) {
+		s.check(step)
+	}
+}
+
+// opRefusedGenerate: a generation request that names something that does not exist
+func (s *seq) opRefusedGenerate(rng *rand.Rand) {
+	switch s.kind {
+	case wallet.WalletTypeBip44:
+		acc := uint32(len(s.w.Accounts()) + rng.Intn(3))
+		k := 1 + rng.Intn(7)
+		step := fmt.Sprintf("generate %d on missing account %d", k, acc)
+		s.log(step)
+		o := []wallet.Option{wallet.OptionGenerateN(uint64(k)), wallet.OptionAccount(acc)}
+		if rng.Intn(2) == 0 {
+			o = append(o, wallet.OptionChange())
+		}
+		got, err := s.w.GenerateAddresses(o...)
+		if s.refusedOutcome(step, "generate_missing_account", len(got), err, true) {
+			s.check(step)
+		}
+	case wallet.WalletTypeXPub:
+		// more than 2^32-1 children do not exist; the low 32 bits are small on purpose
+		n := uint64(1)<<32*uint64(1+rng.Intn(3)) + uint64(rng.Intn(8))
+		step := fmt.Sprintf("generate %d", n)
+		s.log(step)
+		got, err := s.w.GenerateAddresses(wallet.OptionGenerateN(n))
+		if s.refusedOutcome(step, "generate_too_many", len(got), err, true) {
+			s.check(step)
+		}
+	default:
+		s.opFailedScan(rng)
+	}
+}
+
+func (s *seq) opRefused(rng *rand.Rand, canLock bool) {
+	switch x := rng.Intn(10); {
+	case x < 6:
+		s.opFailedScan(rng)
+	case x < 8 && canLock:
+		s.opRefusedLock(rng)
+	default:
+		s.opRefusedGenerate(rng)
+	}
 }
 
 func (s *seq) chains() []chainKey {
@@ -269,6 +506,11 @@ func (s *seq) opGenerate(rng *rand.Rand) {
 	if ck.account > 0 {
 		s.r.Count("op.generate.second_account", 1)
 	}
+	if k > 0 && s.pendGen {
+		s.pendGen = false
+		s.r.Count("refused.then_generate", 1)
+		s.r.Count("refused.then_generate."+s.kind, 1)
+	}
 	s.check(step)
 }
 
@@ -378,6 +620,10 @@ func (s *seq) opReload(rng *rand.Rand) {
 	}
 	s.w = w2
 	s.r.Count("op.reload."+via, 1)
+	if s.pendReload {
+		s.pendReload = false
+		s.r.Count("refused.then_reload", 1)
+	}
 	s.check(step)
 }
 
@@ -422,7 +668,9 @@ func (s *seq) run(rng *rand.Rand, nops int) {
 	s.check("create")
 	canLock := s.kind == wallet.WalletTypeDeterministic || s.kind == wallet.WalletTypeBip44
 	for i := 0; i < nops && !s.bad; i++ {
-		switch x := rng.Intn(100); {
+		switch x := rng.Intn(116); {
+		case x >= 100:
+			s.opRefused(rng, canLock)
 		case x < 38:
 			s.opGenerate(rng)
 		case x < 56:
@@ -549,7 +797,7 @@ func runDeterministic(r *vf.Run, i int, dir string) {
 	s.want[chainKey{0, 0}] = n0
 	s.log("create deterministic seed=%q coin=%s n=%d", seed, s.coin, n0)
 	s.one = oneShotDeterministic(seed, s.coin)
-	s.run(rng, 8+rng.Intn(9))
+	s.run(rng, 9+rng.Intn(10))
 }
 
 func bip44Setup(rng *rand.Rand, s *seq) (seed, pass string, opts wallet.Options, accounts int) {
@@ -597,7 +845,7 @@ func runBip44(r *vf.Run, i int, dir string) {
 	}
 	s.log("create bip44 seed=%q pass=%q coin=%s n=%d accounts=%d", seed, pass, s.coin, n0, accounts)
 	s.one = oneShotBip44(seed, pass, opts, accounts)
-	s.run(rng, 8+rng.Intn(9))
+	s.run(rng, 9+rng.Intn(10))
 	if !s.bad && accounts > 1 {
 		// different accounts / chains must not collide
 		seen := map[string]chainKey{}
@@ -634,7 +882,7 @@ func runXPub(r *vf.Run, i int, dir string) {
 	// reference: the SEED wallet's external chain, one-shot
 	b := oneShotBip44(seed, pass, opts, 1)
 	s.one = func(_ chainKey, n int) ([]string, error) { return b(chainKey{0, 0}, n) }
-	s.run(rng, 8+rng.Intn(9))
+	s.run(rng, 9+rng.Intn(10))
 	if !s.bad {
 		r.Count("xpub.addresses_equal_seed_wallet", int64(s.want[chainKey{0, 0}]))
 	}
@@ -670,9 +918,33 @@ func runCollection(r *vf.Run, i int, dir string) {
 	s.want[ck] = n0
 	s.log("create collection n=%d", n0)
 	s.check("create")
-	nops := 6 + rng.Intn(8)
+	nops := 7 + rng.Intn(9)
 	for j := 0; j < nops && !s.bad; j++ {
-		switch x := rng.Intn(100); {
+		switch x := rng.Intn(116); {
+		case x >= 100:
+			switch y := rng.Intn(10); {
+			case y < 4 && !s.w.IsEncrypted():
+				// a key list that starts with a key that is no key: nothing of it may be taken
+				bad := []cipher.SecKey{{}}
+				if rng.Intn(2) == 0 {
+					for b := range bad[0] {
+						bad[0][b] = 0xff // above the group order
+					}
+				}
+				for n := rng.Intn(3); n > 0; n-- {
+					bad = append(bad, wfix.SecKey(rng))
+				}
+				step := fmt.Sprintf("add %d keys, the first one invalid", len(bad))
+				s.log(step)
+				got, err := s.w.GenerateAddresses(wallet.OptionCollectionPrivateKeys(bad))
+				if s.refusedOutcome(step, "collection_invalid_key", len(got), err, true) {
+					s.check(step)
+				}
+			case y < 7:
+				s.opRefusedLock(rng)
+			default:
+				s.opFailedScan(rng)
+			}
 		case x < 40 && !s.w.IsEncrypted():
 			k := []int{0, 1, 2, 7}[rng.Intn(4)]
 			keys := addKeys(k)
@@ -690,6 +962,11 @@ func runCollection(r *vf.Run, i int, dir string) {
 			}
 			s.want[ck] += k
 			s.r.Count("op.collection.add_keys", 1)
+			if k > 0 && s.pendGen {
+				s.pendGen = false
+				s.r.Count("refused.then_generate", 1)
+				s.r.Count("refused.then_generate."+s.kind, 1)
+			}
 			s.check(step)
 		case x < 65:
 			s.opReload(rng)
@@ -732,6 +1009,96 @@ func (s *seq) refresh(step string) bool {
 	}
 	s.w = w
 	return true
+}
+
+// svcRefused: requests the service must turn down (or that fail inside it), on the stored wallet
+func (s *seq) svcRefused(rng *rand.Rand, encrypt bool) {
+	id := s.w.Filename()
+	var right []byte // the password a well-formed request carries
+	if encrypt && s.kind != wallet.WalletTypeBip44 {
+		right = s.encPw
+	}
+	wrongPw := func() ([]byte, string) {
+		// returns a password the service cannot accept for this wallet
+		switch {
+		case !encrypt:
+			return []byte("pw " + wfix.RandToken(rng, 8)), "password_for_unencrypted"
+		case rng.Intn(4) == 0:
+			return nil, "password_missing"
+		default:
+			w := append([]byte(nil), s.encPw...)
+			w[rng.Intn(len(w))] ^= 1 << uint(rng.Intn(7))
+			return w, "password_wrong"
+		}
+	}
+	var step, class string
+	var got []cipher.Address
+	var err error
+	mustFail := true
+	switch x := rng.Intn(10); {
+	case x < 4:
+		k, tf := failPlan(rng, len(s.chains()))
+		step, class = fmt.Sprintf("Service.ScanAddresses %d, activity query #%d fails (data=%v)", k, tf.failAt, tf.withData), "scan_finder_error"
+		s.log(step)
+		got, err = s.svc.ScanAddresses(id, right, uint64(k), tf)
+		if err != nil && !s.failedScanWindows(step, k, tf) {
+			return
+		}
+	case x < 6:
+		// scan with a password the wallet cannot be opened with; the oracle would report hits everywhere
+		var pw []byte
+		if s.kind == wallet.WalletTypeBip44 {
+			pw, class = []byte("pw "+wfix.RandToken(rng, 8)), "password_for_bip44" // bip44 scans take no password
+		} else {
+			pw, class = wrongPw()
+		}
+		class, mustFail = "scan_"+class, false
+		k := 1 + rng.Intn(7)
+		tf := &wfix.StubTF{}
+		for range s.chains() {
+			p := make([]bool, k)
+			p[k-1] = true
+			tf.Patterns = append(tf.Patterns, p)
+		}
+		step = fmt.Sprintf("Service.ScanAddresses %d (%s)", k, class)
+		s.log(step)
+		got, err = s.svc.ScanAddresses(id, pw, uint64(k), tf)
+	case x < 8 && s.kind != wallet.WalletTypeBip44:
+		// bip44 wallets generate from public keys and take any password
+		pw, c := wrongPw()
+		class, mustFail = "new_addresses_"+c, false
+		k := 1 + rng.Intn(7)
+		step = fmt.Sprintf("Service.NewAddresses %d (%s)", k, c)
+		s.log(step)
+		got, err = s.svc.NewAddresses(id, pw, wallet.OptionGenerateN(uint64(k)))
+	default:
+		switch s.kind {
+		case wallet.WalletTypeBip44:
+			acc := uint32(1 + rng.Intn(3))
+			k := 1 + rng.Intn(7)
+			step, class = fmt.Sprintf("Service.NewAddresses %d on missing account %d", k, acc), "generate_missing_account"
+			s.log(step)
+			got, err = s.svc.NewAddresses(id, right, wallet.OptionGenerateN(uint64(k)), wallet.OptionAccount(acc))
+		case wallet.WalletTypeXPub:
+			n := uint64(1)<<32*uint64(1+rng.Intn(3)) + uint64(rng.Intn(8))
+			step, class = fmt.Sprintf("Service.NewAddresses %d", n), "generate_too_many"
+			s.log(step)
+			got, err = s.svc.NewAddresses(id, right, wallet.OptionGenerateN(n))
+		default:
+			k := 1 + rng.Intn(7)
+			step, class = fmt.Sprintf("Service.NewAddresses %d on a wallet id that does not exist", k), "unknown_wallet"
+			s.log(step)
+			got, err = s.svc.NewAddresses("no-"+id, right, wallet.OptionGenerateN(uint64(k)))
+		}
+	}
+	if !s.refusedOutcome(step, class, len(got), err, mustFail) {
+		return
+	}
+	s.r.Count("service.refused", 1)
+	s.r.Count("service.refused."+class, 1)
+	if s.refresh(step) {
+		s.check(step)
+	}
 }
 
 func runService(r *vf.Run, i int) {
@@ -792,9 +1159,11 @@ func runService(r *vf.Run, i int) {
 	s.want[chainKey{0, 0}] = n0
 	s.log("service create %s encrypted=%v n=%d seed=%q pass=%q", kind, encrypt, n0, opts.Seed, opts.SeedPassphrase)
 	s.check("service-create")
-	nops := 8 + rng.Intn(7)
+	nops := 9 + rng.Intn(8)
 	for j := 0; j < nops && !s.bad; j++ {
-		switch x := rng.Intn(100); {
+		switch x := rng.Intn(118); {
+		case x >= 100:
+			s.svcRefused(rng, encrypt)
 		case x < 45:
 			cks := s.chains()
 			ck := cks[rng.Intn(len(cks))]
@@ -827,6 +1196,10 @@ func runService(r *vf.Run, i int) {
 			if encrypt {
 				s.r.Count("service.new_addresses.encrypted", 1)
 			}
+			if k > 0 && s.pendGen {
+				s.pendGen = false
+				s.r.Count("service.refused.then_new_addresses", 1)
+			}
 			if s.refresh(step) {
 				s.check(step)
 			}
@@ -857,6 +1230,10 @@ func runService(r *vf.Run, i int) {
 			}
 			svc, s.svc = svc2, svc2
 			s.r.Count("service.restart", 1)
+			if s.pendReload {
+				s.pendReload = false
+				s.r.Count("service.refused.then_restart", 1)
+			}
 			if s.refresh(step) {
 				s.check(step)
 			}
@@ -960,7 +1337,26 @@ func main() {
 	fl("entries.secret_checked_refsecp", 20000, 600000)
 	fl("xpub.addresses_equal_seed_wallet", 500, 15000)
 	fl("coin.bitcoin_sequences", 5, 150)
-	r.Finish("per wallet kind a seed/passphrase/coin and a sequence of 8-16 operations (generate k in {0,1,2,7,50} on a random chain/account, scan with a scripted activity pattern, reload via bytes or file, clone, lock/unlock with operations while locked) are drawn from the run seed; the wallet is compared after every step with one-shot wallets derived from the same seed; a sequence is distinct by its operation trace and final counts",
+	// refused / failing operations and what followed them on the same wallet
+	fl("op.refused", 300, 9000)
+	fl("op.refused.scan_finder_error", 120, 3600)
+	fl("op.refused.scan_finder_error.after_answers", 15, 450)
+	fl("op.refused.scan_finder_error.nonempty_wallet", 100, 3000)
+	fl("op.refused.unlock_wrong_password", 8, 240)
+	fl("op.refused.generate_missing_account", 8, 240)
+	fl("op.refused.generate_too_many", 8, 240)
+	fl("op.refused.collection_invalid_key", 8, 240)
+	fl("refused.then_generate", 150, 4500)
+	for _, k := range []string{"deterministic", "bip44", "xpub"} {
+		fl("refused.then_generate."+k, 20, 600)
+	}
+	fl("refused.then_generate.collection", 8, 240)
+	fl("refused.then_reload", 100, 3000)
+	fl("service.refused", 60, 1800)
+	fl("service.refused.scan_finder_error", 20, 600)
+	fl("service.refused.then_new_addresses", 30, 900)
+	fl("service.refused.then_restart", 30, 900)
+	r.Finish("per wallet kind a seed/passphrase/coin and a sequence of 9-18 operations (generate k in {0,1,2,7,50} on a random chain/account, scan with a scripted activity pattern, reload via bytes or file, clone, lock/unlock with operations while locked, and refused or failing operations: a scan whose activity oracle errors at the first or a later chain, wrong/missing passwords, lock/unlock in the wrong state, missing account, impossible count, invalid key, after which the same wallet object keeps being used) are drawn from the run seed; the wallet is compared after every step with one-shot wallets derived from the same seed; a sequence is distinct by its operation trace and final counts",
 		"one-shot wallets are produced by the code under test in a single derivation call per chain (the statement is about independence from batch splitting, not about the derivation function itself, which C14/C16 cover); the change chain of account 0 necessarily contains the address derived at creation plus one call",
 		"address-of-public-key uses cipher.AddressFromPubKey / BitcoinAddressFromPubKey (C15 covers the encoding); public-key-of-secret uses lib/refsecp",
 		"the service leg uses skycoin-coin wallets only (the service refuses others) and crypto types sha256-xor / scrypt-insecure")
